@@ -84,6 +84,10 @@ theorem SysInv.exec {sys : Sys} (h : SysInv sys) (a : Action) (hf : a.fresh = tr
   | gcU n => exact h.envStep (h.store.gcUsage n) fun t ht => (h.threads t ht).gcUsage h.store n
   | gcR g k n => exact h.envStep (h.store.gcRes g k n) fun t ht => (h.threads t ht).sameUsages (.gcRes _ g k n)
   | xa n c => exact h.envStep (h.store.reapplyUsage n c) fun t ht => (h.threads t ht).reapplyUsage h.store n c
+  | er g k n l =>
+    exact h.envStep (h.store.touchRes g k n l) fun t ht => (h.threads t ht).sameUsages (.touchRes _ g k n l)
+  | stepW n o c => simp [Action.fresh] at hf
+  | xaRaw n c => simp [Action.fresh] at hf
   | start n =>
     simp only [Sys.exec]
     split
